@@ -18,9 +18,10 @@ EXTENDS Solver, Json, IOUtils
 VARIABLES l,        \* next trace line
           pend,     \* scalars of the ResNorm/ReadFactor/Switch events waiting for the ConvCheck that completes the step
           prevCur,  \* limbs of the previous residual norm of this solve
-          fmgSeq    \* FMG start-up events observed since SolveEnter
+          fmgSeq,   \* FMG start-up events observed since SolveEnter
+          c01       \* the configuration lies in the supported set of C01: the solve must converge with rho < 1
 
-tvars == <<vars, l, pend, prevCur, fmgSeq>>
+tvars == <<vars, l, pend, prevCur, fmgSeq, c01>>
 
 Tr == ndJsonDeserialize(IOEnv.TRACE)
 N == Len(Tr)
@@ -37,7 +38,7 @@ DLeq(a, b) == \/ a.l2 < b.l2
               \/ a.l2 = b.l2 /\ a.l1 = b.l1 /\ a.l0 <= b.l0
 IsOne(d) == d.neg = 0 /\ d.nan = 0 /\ d.l2 = 1047552 /\ d.l1 = 0 /\ d.l0 = 0     \* 0x3FF0000000000000
 
-Quiet == UNCHANGED <<pend, prevCur, fmgSeq>>
+Quiet == UNCHANGED <<pend, prevCur, fmgSeq, c01>>
 
 (* ------------------------------ construction ----------------------------- *)
 \* "Ctor": a new object; every variable returns to Init with the logged abstract options
@@ -50,9 +51,9 @@ TCtor ==
   /\ built' = NoLevels /\ fgs' = FALSE /\ resNorms' = <<>> /\ exErrs' = <<>> /\ nIter' = -1 /\ meanRho' = UNSET
   /\ initNorm' = UNDEF /\ curNorm' = UNDEF /\ start' = <<"none">> /\ sid' = 0 /\ pc' = "idle" /\ k' = 0 /\ mh' = <<>>
   /\ memo' = <<>> /\ sh' = FreshSh /\ calls' = 0 /\ stopped' = FALSE /\ justSolved' = FALSE /\ hist' = <<>>
-  /\ pend' = NoPend /\ prevCur' = <<0, 0, 0>> /\ fmgSeq' = <<>>
+  /\ pend' = NoPend /\ prevCur' = <<0, 0, 0>> /\ fmgSeq' = <<>> /\ c01' = (E.c01 = 1)
 
-TraceInit == Init /\ l = 1 /\ pend = NoPend /\ prevCur = <<0, 0, 0>> /\ fmgSeq = <<>>
+TraceInit == Init /\ l = 1 /\ pend = NoPend /\ prevCur = <<0, 0, 0>> /\ fmgSeq = <<>> /\ c01 = FALSE
 
 BoolOpt == {"fmg", "take", "caches", "absOn", "relOn", "exact"}
 TSetOpt ==
@@ -87,11 +88,11 @@ TSolveEnter ==
   /\ IsEvent("SolveEnter") /\ Consume
   /\ SolveEnter
   /\ E.normsSz = Len(resNorms) /\ E.errsSz = Len(exErrs) /\ (E.fgs = 1) = fgs
-  /\ fmgSeq' = <<>> /\ UNCHANGED <<pend, prevCur>>
+  /\ fmgSeq' = <<>> /\ UNCHANGED <<pend, prevCur, c01>>
 
 \* start-up events: collected, judged at SolveBegin
 TStartEvent ==
-  /\ pc = "begin" /\ Consume /\ UNCHANGED <<vars, pend, prevCur>>
+  /\ pc = "begin" /\ Consume /\ UNCHANGED <<vars, pend, prevCur, c01>>
   /\ \/ IsEvent("InitZero") /\ fmgSeq' = Append(fmgSeq, <<"zero">>)
      \/ IsEvent("FMGDirect") /\ fmgSeq' = Append(fmgSeq, <<"direct", E.level>>)
      \/ IsEvent("FMGInterp") /\ fmgSeq' = Append(fmgSeq, <<"interp", E.from, E.to>>)
@@ -118,44 +119,44 @@ TSolveBegin ==
   /\ (E.fmg = 1) = opts.fmg /\ E.ext = opts.ext /\ E.L = built.L
   /\ E.maxIter = opts.maxIter /\ (E.absOn = 1) = opts.absOn /\ (E.relOn = 1) = opts.relOn /\ (E.exact = 1) = opts.exact
   /\ (meanRho' = ONE) <=> IsOne(E.rho)
-  /\ pend' = NoPend /\ prevCur' = <<0, 0, 0>> /\ UNCHANGED fmgSeq
+  /\ pend' = NoPend /\ prevCur' = <<0, 0, 0>> /\ UNCHANGED <<fmgSeq, c01>>
 
 TLoopHead ==
   /\ IsEvent("LoopHead") /\ Consume /\ Quiet
   /\ LoopHead /\ pc' = "err" /\ E.k = k
 
 \* silent: the loop condition fails (no event is emitted outside the loop body)
-SLoopExit == pc = "head" /\ k >= opts.maxIter /\ LoopHead /\ UNCHANGED <<l, pend, prevCur, fmgSeq>>
+SLoopExit == pc = "head" /\ k >= opts.maxIter /\ LoopHead /\ UNCHANGED <<l, pend, prevCur, fmgSeq, c01>>
 
 TExactErr ==
   /\ IsEvent("ExactErr") /\ Consume /\ Quiet
   /\ opts.exact /\ ExactErr
   /\ E.k = k /\ E.errsSz = Len(exErrs')
 \* silent: no exact solution set
-SNoExact == pc = "err" /\ ~opts.exact /\ ExactErr /\ UNCHANGED <<l, pend, prevCur, fmgSeq>>
+SNoExact == pc = "err" /\ ~opts.exact /\ ExactErr /\ UNCHANGED <<l, pend, prevCur, fmgSeq, c01>>
 
 \* the norm step of the model is spread over 2-4 events: ResNorm, [ReadFactor, [Switch]], ConvCheck
 TResNormEv ==
-  /\ IsEvent("ResNorm") /\ Consume /\ UNCHANGED <<vars, prevCur, fmgSeq>>
+  /\ IsEvent("ResNorm") /\ Consume /\ UNCHANGED <<vars, prevCur, fmgSeq, c01>>
   /\ pc = "norm" /\ ~pend.has
   /\ E.k = k
   /\ E.normsSz = Len(resNorms) + 1              \* push_back happened
   /\ Finite(E.cur)
   /\ pend' = [NoPend EXCEPT !.has = TRUE, !.k = k, !.cur = Limbs(E.cur)]
 TReadFactorEv ==
-  /\ IsEvent("ReadFactor") /\ Consume /\ UNCHANGED <<vars, prevCur, fmgSeq>>
+  /\ IsEvent("ReadFactor") /\ Consume /\ UNCHANGED <<vars, prevCur, fmgSeq, c01>>
   /\ pc = "norm" /\ pend.has /\ ~pend.factorRead /\ k > 0
   \* ReadsOwnSolve: the two entries read are the norms of iterations k and k-1 of THIS solve
   /\ E.i = k /\ E.j = k - 1 /\ E.normsSz = k + 1
   /\ Limbs(E.num) = pend.cur /\ Limbs(E.den) = prevCur
   /\ pend' = [pend EXCEPT !.factorRead = TRUE, !.bad = (E.bad = 1)]
 TSwitchEv ==
-  /\ IsEvent("Switch") /\ Consume /\ UNCHANGED <<vars, prevCur, fmgSeq>>
+  /\ IsEvent("Switch") /\ Consume /\ UNCHANGED <<vars, prevCur, fmgSeq, c01>>
   /\ pc = "norm" /\ pend.factorRead /\ pend.bad /\ ~pend.switched /\ E.k = k
   /\ opts.ext = 3 /\ fgs
   /\ pend' = [pend EXCEPT !.switched = TRUE]
 TConvCheck ==
-  /\ IsEvent("ConvCheck") /\ Consume /\ UNCHANGED fmgSeq
+  /\ IsEvent("ConvCheck") /\ Consume /\ UNCHANGED <<fmgSeq, c01>>
   /\ pc = "norm" /\ pend.has /\ E.k = k
   /\ (k > 0) = pend.factorRead
   /\ Limbs(E.cur) = pend.cur
@@ -181,12 +182,17 @@ TSolveEnd ==
   /\ E.nIter = nIter /\ E.normsSz = Len(resNorms) /\ E.errsSz = Len(exErrs) /\ (E.fgs = 1) = fgs
   /\ (meanRho' = ONE) <=> IsOne(E.rho)
   /\ E.rho.nan = 0 \/ meanRho'[1] = "ratio"
+  \* C01, first half: inside the supported set the iteration stops on the tolerance before the budget is used up,
+  \* with a mean reduction factor strictly below one (exact comparison of the bit patterns with 1.0)
+  /\ c01 => /\ stopped
+            /\ nIter < opts.maxIter
+            /\ (nIter > 0 => (Finite(E.rho) /\ DLeq(E.rho, [l2 |-> 1047551, l1 |-> 2097151, l0 |-> 2097151])))
 
 \* solve() threw: before doing anything (missing right-hand sides / no setup), or part-way on an out-of-date hierarchy
 TSolveThrew ==
   /\ IsEvent("SolveThrew") /\ Consume
   /\ \/ pc = "idle" /\ SolveReject /\ Quiet
-     \/ pc # "idle" /\ SolveAbort /\ pend' = NoPend /\ UNCHANGED <<prevCur, fmgSeq>>
+     \/ pc # "idle" /\ SolveAbort /\ pend' = NoPend /\ UNCHANGED <<prevCur, fmgSeq, c01>>
 
 (* --------------------------- driver observations ------------------------- *)
 \* public getters after a solve: defined values (C20)
@@ -212,6 +218,7 @@ TraceNext ==
 
 TraceSpec == TraceInit /\ [][TraceNext]_tvars
 
+TraceMisc == 0..1500      \* cfg files cannot spell a range
 NotAccepted == l <= N
 \* progress register for diagnosing a rejection (needs -workers 1): prints the highest line index reached
 ASSUME TLCSet(1, 0)
